@@ -237,6 +237,14 @@ class Engine(ExprMixin, CallMixin, BuiltinMixin, VerifyMixin):
             CTX.axioms.append(core.llen(r) == core.llen(v))
             CTX.axioms.append(core.forall_int(0, core.llen(v), lambda k: core.lget(r, k).t == core.osome(ty.elem, core.lget(v, k)).t))
             return r
+        if isinstance(v.ty, Map) and isinstance(ty, Map) and v.ty.k == ty.k and ty.v is PY and v.ty.v is not PY:
+            # a mapping with statically typed values used where dynamically typed values are expected: same keys, boxed values
+            r = core.ufun("box_values", [v], ty)
+            kty = ty.k
+            CTX.axioms.append(core.forall_ty(kty, lambda k: core.smem_t(core.mdom(r), k) == core.smem_t(core.mdom(v), k)))
+            CTX.axioms.append(core.forall_ty(kty, lambda k: z3.Implies(core.smem_t(core.mdom(v), k),
+                                                                         z3.Select(core.mval(r), k) == core.to_py(V(v.ty.v, z3.Select(core.mval(v), k))).t)))
+            return r
         if isinstance(v.ty, Opt) and not isinstance(ty, Opt):
             hook = getattr(self.reg, "coercions", {}).get((v.ty.elem.key, ty.key))
             if hook is not None:
@@ -560,6 +568,13 @@ class Engine(ExprMixin, CallMixin, BuiltinMixin, VerifyMixin):
             res = []
             for st1, obj in self.ev(tgt.value, st):
                 st1 = st1.copy()
+                if isinstance(obj.ty, Opt) and isinstance(obj.ty.elem, Ref):
+                    bad, ok = self.fork(st1, core.ois_none(obj), getattr(tgt, "lineno", None), "none-setattr")
+                    if bad is not None:
+                        self.do_raise(bad, "AttributeError")
+                    if ok is None:
+                        continue
+                    st1, obj = ok.copy(), core.oval(obj)
                 if isinstance(obj.ty, Ref):
                     self.heap_set(st1, obj, tgt.attr, v)
                     res.append(st1)
@@ -569,6 +584,14 @@ class Engine(ExprMixin, CallMixin, BuiltinMixin, VerifyMixin):
         if isinstance(tgt, ast.Subscript):
             res = []
             for st1, c in self.ev(tgt.value, st):
+                if isinstance(c.ty, Opt) and isinstance(c.ty.elem, Ref):
+                    # item assignment through an optional reference: None is a TypeError
+                    bad, ok = self.fork(st1, core.ois_none(c), tgt.lineno, "none-setitem")
+                    if bad is not None:
+                        self.do_raise(bad, "TypeError")
+                    if ok is None:
+                        continue
+                    st1, c = ok, core.oval(c)
                 if isinstance(c.ty, Ref):
                     for st2, k in self.ev(tgt.slice, st1):
                         for st3, _ in self.call_method(c, "__setitem__", [k, v], {}, st2, tgt):
@@ -619,6 +642,15 @@ class Engine(ExprMixin, CallMixin, BuiltinMixin, VerifyMixin):
             st.assume(core.llen(v) == n)      # assumption recorded
             self.notes.append("unpack of list assumed to have %d elements" % n)
             return [core.lget(v, i) for i in range(n)]
+        if isinstance(v.ty, Opt) and isinstance(v.ty.elem, Tup):
+            s = z3.Solver()
+            s.set("timeout", 2000)
+            s.add(*CTX.axioms)
+            s.add(*st.pc)
+            s.add(core.ois_none(v))
+            if s.check() == z3.unsat:         # None excluded on this path (an `is None` test came first)
+                return self.unpack(core.oval(v), n, st)
+            raise OutsideSubset("unpack of a possibly-None tuple")
         raise OutsideSubset("unpack of %r" % (v.ty,))
 
     def st_If(self, s, st):
